@@ -15,6 +15,12 @@ import (
 	"sort"
 	"strings"
 
+	"github.com/ysugimoto/falco/v2/config"
+	"github.com/ysugimoto/falco/v2/lexer"
+	"github.com/ysugimoto/falco/v2/linter"
+	lcontext "github.com/ysugimoto/falco/v2/linter/context"
+	"github.com/ysugimoto/falco/v2/parser"
+
 	"verif/harness/fw"
 	"verif/harness/lintutil"
 )
@@ -48,6 +54,9 @@ var rstmts = []rstmt{
 	{[]string{`set req.http.E = std.itoa(0, 1, 2)`, `    std.itoa(req.http.bar);`}, []rdiag{{0, ruleArgs}, {1, ruleType}}},
 	{[]string{`set req.http.F = "a"`, `    "b"`, `    std.itoa(0, 1, 2);`}, []rdiag{{2, ruleArgs}}},
 	{[]string{`set req.http.G =`, `    std.itoa(req.http.bar)`, `    "c";`}, []rdiag{{1, ruleType}}},
+	// include statements whose module cannot be loaded: the diagnostic is located in the statement
+	{[]string{`include "nosuch_module";`}, []rdiag{{0, "include/module-load-failed"}}},
+	{[]string{`include "snippet::nosuch_snippet";`}, []rdiag{{0, "include/module-not-found"}}},
 }
 
 // item of the generated body: a statement, a directive or a block boundary
@@ -97,8 +106,16 @@ func pickList(r *rand.Rand) []string {
 	return nil
 }
 
+// noIncludeStmts: include statements are generated in the main file only (an include at the top level of
+// a module or of a snippet file is resolved ahead of linting, without its comments)
+var noIncludeStmts bool
+
 func genStmt(r *rand.Rand) ritem {
-	it := ritem{kind: "stmt", stmt: r.Intn(len(rstmts))}
+	n := len(rstmts)
+	if noIncludeStmts {
+		n -= 2
+	}
+	it := ritem{kind: "stmt", stmt: r.Intn(n)}
 	switch r.Intn(8) {
 	case 0:
 		it.own, it.ownList, it.blank = "next-line", pickList(r), r.Intn(3) == 0
@@ -296,12 +313,16 @@ func (w *rworld) render(file string, items []ritem, indent string, lines *[]stri
 
 func oneRanges(oc *fw.Outcome, r *rand.Rand) {
 	var items []ritem
+	// every fifth program is a statement-only snippet file with a scope annotation
+	snippetFile := r.Intn(5) == 0
+	noIncludeStmts = snippetFile
 	genBody(r, 0, 0, 24, &items)
+	noIncludeStmts = true
 	w := &rworld{r: r, marker: r.Intn(3), mixed: r.Intn(4) == 0, feats: map[string]bool{}}
 	// optionally a module included from the subroutine body (at block depth 0) which has ranges of its
 	// own, one of them possibly left open at its end
 	var module []ritem
-	if r.Intn(3) == 0 {
+	if !snippetFile && r.Intn(3) == 0 {
 		genBody(r, 1, 0, 10, &module)
 		if r.Intn(3) == 0 {
 			module = append(module, ritem{kind: "start", rules: pickList(r)}, genStmt(r))
@@ -340,13 +361,22 @@ func oneRanges(oc *fw.Outcome, r *rand.Rand) {
 			module = nil
 		}
 	}
+	noIncludeStmts = false
 	var lines []string
-	lines = append(lines, "sub vcl_recv {", "#FASTLY RECV")
-	w.render("main", items, "  ", &lines, nil, module)
-	lines = append(lines, "  return(lookup);", "}")
-	// a later subroutine: nothing of the ranges above (all closed) may reach it
-	lines = append(lines, "sub vcl_deliver {", "#FASTLY DELIVER", "  set resp.http.A = std.itoa(0, 1, 2);", "}")
-	w.exps = append(w.exps, expectation{"main", len(lines) - 1, ruleArgs, "reported"})
+	if snippetFile {
+		w.feats["snippet-file"] = true
+		lines = append(lines, "# @scope: recv", "")
+		w.render("main", items, "", &lines, nil, nil)
+		lines = append(lines, "set req.http.Last = std.itoa(0, 1, 2);")
+		w.exps = append(w.exps, expectation{"main", len(lines), ruleArgs, "reported"})
+	} else {
+		lines = append(lines, "sub vcl_recv {", "#FASTLY RECV")
+		w.render("main", items, "  ", &lines, nil, module)
+		lines = append(lines, "  return(lookup);", "}")
+		// a later subroutine: nothing of the ranges above (all closed) may reach it
+		lines = append(lines, "sub vcl_deliver {", "#FASTLY DELIVER", "  set resp.http.A = std.itoa(0, 1, 2);", "}")
+		w.exps = append(w.exps, expectation{"main", len(lines) - 1, ruleArgs, "reported"})
+	}
 	src := strings.Join(lines, "\n") + "\n"
 	mods := map[string]string{}
 	if w.modLines != nil {
@@ -356,7 +386,11 @@ func oneRanges(oc *fw.Outcome, r *rand.Rand) {
 	oc.Evals++
 	var res *lintutil.Result
 	panicked, msg, st := fw.Guard(func() {
-		res = lintutil.Lint(src, &lintutil.MapResolver{Main: src, Modules: mods, Budget: 10})
+		if snippetFile {
+			res = lintSnippetFile(src)
+		} else {
+			res = lintutil.Lint(src, &lintutil.MapResolver{Main: src, Modules: mods, Budget: 1000})
+		}
 	})
 	detail := map[string]any{"vcl": src, "mod": mods["mod"]}
 	if panicked {
@@ -444,6 +478,9 @@ func shape(items []ritem, w *rworld) string {
 	if w.feats["module"] {
 		pre = "module/" + pre
 	}
+	if w.feats["snippet-file"] {
+		pre = "snippet-file/" + pre
+	}
 	for _, f := range []string{"own:trailing-on-multi-line", "own:next-line+blank", "listed-start-closed-by-bare-end"} {
 		if w.feats[f] {
 			s += "+" + strings.TrimPrefix(f, "own:")
@@ -469,6 +506,10 @@ var declUnits = [][]string{
 	{`sub f1 STRANGE { return "x"; }`},
 	{`table t2 UNKNOWNTYPE { "a": "b" }`},
 	{`acl a2 { "10.0.0.999"; }`},
+	{`sub rec1 { call rec1; }`},                            // recursive (and unused)
+	{`sub rec2 { call rec3; }`, `sub rec3 { call rec2; }`}, // mutually recursive
+	{`include "nosuch_root_module";`},                      // cannot be loaded
+	{`include "snippet::nosuch_root_snippet";`},
 	{`table t3 { "k": "v" }`}, // unused
 	{`acl a3 { "192.0.2.0"/24; }`},
 }
@@ -652,4 +693,23 @@ func oneDecls(oc *fw.Outcome, r *rand.Rand) {
 			}
 		}
 	}
+}
+
+// lintSnippetFile lints a statement-only file (ParseVCLOrSnippet sets IsSnippet) the way falco lint does.
+func lintSnippetFile(src string) *lintutil.Result {
+	r := &lintutil.Result{}
+	v, err := parser.New(lexer.NewFromString(src, lexer.WithFile("main.vcl"))).ParseVCLOrSnippet()
+	if err != nil {
+		r.ParseErr = err
+		return r
+	}
+	l := linter.New(&config.LinterConfig{})
+	l.Lint(v, lcontext.New(lcontext.WithResolver(&lintutil.MapResolver{Main: src, Budget: 10})))
+	if l.FatalError != nil {
+		r.Fatal = fmt.Sprint(l.FatalError.Error)
+	}
+	for _, e := range l.Errors {
+		r.Diags = append(r.Diags, lintutil.Diag{Rule: string(e.Rule), Severity: string(e.Severity), File: e.Token.File, Line: e.Token.Line, Pos: e.Token.Position, Msg: e.Message})
+	}
+	return r
 }
